@@ -115,7 +115,7 @@ ValidFCases == {c \in FCase : FValid(c)}
 ---------------------------------------------------------------------------
 (* expressions evaluated at reference points (C04) *)
 ETerms == {"u", "gradu", "fgradu", "symgrad", "x", "n", "f", "gradf", "cgradf", "hessf", "absf", "fu", "outer",
-           "elim", "fg", "un"}
+           "elim", "celim", "fg", "un"}
 ERank(t) == IF t \in {"u", "gradu", "fgradu", "symgrad", "fu", "un"} THEN 1 ELSE 0
 EElems == {"P1", "P2", "DG1", "vP1", "vP2", "N1", "RT1", "symP1", "TH"}
 ECase == [cell : Cells, elem : EElems, term : ETerms, pts : {"cell", "facet", "interp"}, geom : {"affine", "nonaffine", "manifold"}]
@@ -128,7 +128,7 @@ EValid(c) ==
   /\ (c.term \in {"n", "un"} => c.pts = "facet")
   /\ (c.term = "n" => c.elem = "P1")
   /\ (c.pts = "facet" => c.term \in {"n", "un", "u", "gradu", "f", "fu", "x", "gradf"})
-  /\ (c.term \in {"elim", "fg", "un"} => c.elem \in {"P1", "P2", "DG1"})
+  /\ (c.term \in {"elim", "celim", "fg", "un"} => c.elem \in {"P1", "P2", "DG1"})
   /\ (c.pts = "facet" => c.cell # "interval")
   /\ (c.elem = "symP1" => Tdim(c.cell) = 2 /\ c.term \in {"u", "f"})
   /\ (c.geom = "nonaffine" => c.cell \in {"quadrilateral", "hexahedron"} /\ ~(c.elem \in {"N1", "RT1"}))
